@@ -29,7 +29,7 @@ RULE = ("cases drawn by seeded sampling: forward method x backward setting cycle
         "that gmres terminates) and a directed group 'spy' where the backward method is a recording callable. non-trivial = n >= 2, "
         "non-zero cotangent, no ConvergenceWarning in any phase, first-order gradients compared for every leaf with at least one "
         "non-zero reference gradient among the leaves of A")
-MIN_NONTRIVIAL = {"quick": 250, "thorough": 3000}
+MIN_NONTRIVIAL = {"quick": 800, "thorough": 8000}
 ASSUMPTIONS = [
     "cond(A - e_c M) <= 40 for every column and batch element (E is re-drawn / shrunk otherwise); M is Hermitian positive definite with cond <= 5",
     "Hermitian-flagged matrix-free operators (A or M) and every M are parametrised through a symmetrising map of their leaves, so that every "
@@ -46,18 +46,24 @@ ASSUMPTIONS = [
 BUDGET = {"quick": {"worker_timeout": 900, "case_timeout": 150}, "thorough": {"worker_timeout": 3300, "case_timeout": 300}}
 SHARDS_PER_JOB = 3
 REQUIRED_COUNTERS = {
-    "quick": {"compared_first_nograph": 250, "compared_first_graph": 250, "compared_second": 230, "backward_solver_calls": 300,
-              "bck_method_checked": 120, "spy_backward_calls": 10, "fwd_cg": 15, "fwd_bicgstab": 15, "fwd_gmres": 8, "fwd_broyden1": 8,
-              "fwd_custom_exactsolve": 15, "fwd_exactsolve": 15, "bckran_cg": 15, "bckran_bicgstab": 15, "bckran_gmres": 5,
-              "bckran_broyden1_solve": 8, "bckran_exactsolve": 30, "emode_EM": 60, "emode_E": 40, "emode_none": 40, "emode_MnoE": 5,
-              "complex_E_cases": 30, "unused_param_checked": 10, "reduced_B": 30, "reduced_E": 20, "zero_rhs_cases": 3,
-              "normal_equation_backward": 5},
-    "thorough": {"compared_first_nograph": 3000, "compared_first_graph": 3000, "compared_second": 2800, "backward_solver_calls": 4000,
-                 "bck_method_checked": 1500, "spy_backward_calls": 100, "fwd_cg": 200, "fwd_bicgstab": 200, "fwd_gmres": 80,
-                 "fwd_broyden1": 100, "fwd_custom_exactsolve": 200, "fwd_exactsolve": 200, "bckran_cg": 200, "bckran_bicgstab": 200,
-                 "bckran_gmres": 50, "bckran_broyden1_solve": 100, "bckran_exactsolve": 400, "emode_EM": 800, "emode_E": 500,
-                 "emode_none": 500, "emode_MnoE": 60, "complex_E_cases": 400, "unused_param_checked": 120, "reduced_B": 400,
-                 "reduced_E": 300, "zero_rhs_cases": 30, "normal_equation_backward": 60},
+    "quick": {"compared_first_nograph": 800, "compared_first_graph": 800, "compared_second": 780,
+              "backward_solver_calls": 1500, "bck_method_checked": 450, "spy_backward_calls": 200, "fwd_cg": 100,
+              "fwd_bicgstab": 100, "fwd_gmres": 80, "fwd_broyden1": 70, "fwd_custom_exactsolve": 70, "fwd_exactsolve": 50,
+              "bckran_cg": 400, "bckran_bicgstab": 250, "bckran_gmres": 200, "bckran_broyden1_solve": 130,
+              "bckran_exactsolve": 220, "bckran_custom_exactsolve": 170, "emode_EM": 250, "emode_E": 120, "emode_none": 60,
+              "emode_MnoE": 80, "complex_E_cases": 100, "unused_param_checked": 300, "reduced_B": 250, "reduced_E": 170,
+              "zero_rhs_cases": 20, "normal_equation_backward": 60, "frozen_input_cases": 40, "real_E_in_complex_system": 5,
+              "akind_dense_autoherm": 12, "akind_jac": 10, "akind_add_shared": 10, "akind_adj_mv": 10, "akind_mv_inside": 15,
+              "mkind_shared": 80},
+    "thorough": {"compared_first_nograph": 6400, "compared_first_graph": 6400, "compared_second": 6240,
+                 "backward_solver_calls": 12000, "bck_method_checked": 3600, "spy_backward_calls": 1600, "fwd_cg": 800,
+                 "fwd_bicgstab": 800, "fwd_gmres": 640, "fwd_broyden1": 560, "fwd_custom_exactsolve": 560,
+                 "fwd_exactsolve": 400, "bckran_cg": 3200, "bckran_bicgstab": 2000, "bckran_gmres": 1600,
+                 "bckran_broyden1_solve": 1040, "bckran_exactsolve": 1760, "bckran_custom_exactsolve": 1360, "emode_EM": 2000,
+                 "emode_E": 960, "emode_none": 480, "emode_MnoE": 640, "complex_E_cases": 800, "unused_param_checked": 2400,
+                 "reduced_B": 2000, "reduced_E": 1360, "zero_rhs_cases": 160, "normal_equation_backward": 480,
+                 "frozen_input_cases": 320, "real_E_in_complex_system": 40, "akind_dense_autoherm": 96, "akind_jac": 80,
+                 "akind_add_shared": 80, "akind_adj_mv": 80, "akind_mv_inside": 120, "mkind_shared": 640},
 }
 
 KMAX = 40.0
